@@ -584,6 +584,8 @@ class Interp:
         elif self.is_pyany(o):
             self.pyany_op('setitem', node)
         else:
+            if o is None:
+                self.raise_py('TypeError', node)          # CPython: 'NoneType' object does not support item assignment
             raise Unsupported('subscript store on %r' % (o,))
 
     # maps ----------------------------------------------------------------
@@ -2260,6 +2262,8 @@ class Interp:
             h = self.spec.models.get('method:Obj:*.%s' % attr)
         if h is not None:
             return h.fn(self, [o] + list(args), kwargs, node)
+        if o is None:
+            self.raise_py('AttributeError', node)           # CPython: 'NoneType' object has no attribute ...
         raise Unsupported('method .%s on %r' % (attr, o))
 
     def str_format(self, template, kwargs, node):
